@@ -49,6 +49,12 @@ Types ==
                          \cup {[k |-> "ptr", e |-> [k |-> kk]] : kk \in IntKinds \cup UintKinds}
                          \cup {[k |-> "slice", e |-> [k |-> kk]] : kk \in IntKinds \cup UintKinds}
                          \cup {[k |-> "map", key |-> kk, e |-> [k |-> "int"]] : kk \in IntKinds \cup UintKinds}   \* ... and as map keys
+    [] Fam = "ifptr" -> LET base == {[k |-> "ifp", e |-> e] : e \in {[k |-> "int"], [k |-> "i8"], [k |-> "str"], [k |-> "f64"], [k |-> "bool"],
+                                                                     St(<<Fld("none", "A", "A", [k |-> "int"]), Fld("ren", "B", "b", [k |-> "str"])>>),
+                                                                     [k |-> "slice", e |-> [k |-> "int"]], [k |-> "map", key |-> "str", e |-> [k |-> "int"]]}}
+                        IN base \cup {[k |-> "slice", e |-> t] : t \in base} \cup {[k |-> "map", key |-> "str", e |-> t] : t \in base}
+                                \cup {[k |-> "arr", n |-> 2, e |-> t] : t \in base} \cup {[k |-> "ptr", e |-> t] : t \in base}
+                                \cup {St(<<Fld("none", "A", "A", t), Fld("ren", "B", "b", [k |-> "str"])>>) : t \in base}
     [] Fam = "mapkeys" -> {[k |-> "map", key |-> kk, e |-> t] : kk \in AllKeyKinds, t \in {[k |-> "int"], [k |-> "str"]}}   \* every key parser, always in the quick tier
     [] Fam = "wrap1" -> WrapK(Leaf, AllKeyKinds)        \* every key kind: each has its own key parser
     [] Fam = "wrap2" -> Wrap(Wrap(LeafR))
@@ -85,6 +91,7 @@ RECURSIVE Match(_)
 Match(t) ==
   CASE t.k = "rec" -> IF t.d = 0 THEN Obj(<<KV("V", N("p7"))>>)
                       ELSE Obj(<<KV("V", N("p7")), KV("next", Match([k |-> "rec", d |-> t.d - 1])), KV("kids", Arr(<<Match([k |-> "rec", d |-> t.d - 1])>>))>>)
+    [] t.k = "ifp" -> Match(t.e)
     [] t.k \in NumKinds \cup {"num", "iface"} -> N("p7")
     [] t.k = "bool" -> [j |-> "t"]
     [] t.k \in {"str", "ut"} -> S("sx")
@@ -147,7 +154,7 @@ BoundDocs(t) == CASE t.k = "map" -> {Obj(<<KV(BoundKey(c), N("p7"))>>) : c \in B
 DocsFor(t) == IF Fam = "bigst" THEN BigDocs(t) ELSE IF Fam = "bounds" THEN BoundDocs(t) ELSE {Match(t)} \cup Perturb(Match(t), 0)
 
 RECURSIVE HasIface(_)
-HasIface(t) == CASE t.k = "iface" -> TRUE
+HasIface(t) == CASE t.k \in {"iface", "ifp"} -> TRUE
                  [] t.k \in {"ptr", "slice", "arr", "map"} -> HasIface(t.e)
                  [] t.k = "st" -> \E i \in 1..Len(t.f) : HasIface(t.f[i].t)
                  [] OTHER -> FALSE
